@@ -444,6 +444,12 @@ class Evaluator:
             rel = {('Gt', True): '>0', ('Gt', False): '<=0', ('GtE', True): '>=0', ('GtE', False): '<0',
                    ('Eq', True): '==0', ('Eq', False): '!=0', ('NotEq', True): '!=0', ('NotEq', False): '==0'}[(op, polarity)]
             s.add_fact(d, rel)
+        elif isinstance(g, Cond) and (g.a in (True, False) or g.b in (True, False)):
+            # a decision tree with truth leaves has the given value: an arm whose leaf is the OTHER value is excluded, so its test is decided
+            if g.a is (not polarity): s.learn(g.g, False, exc, False); s.learn(g.b, polarity, exc, False) if isinstance(g.b, (Cond, Opq)) else None
+            elif g.b is (not polarity): s.learn(g.g, True, exc, False); s.learn(g.a, polarity, exc, False) if isinstance(g.a, (Cond, Opq)) else None
+        elif isinstance(g, Opq) and g.k and g.k[0] == 'not':
+            s.learn(g.k[1], not polarity, exc, False)
         elif isinstance(g, Opq) and g.k and g.k[0] == 'or' and polarity is False:
             for x in g.k[1:]: s.learn(x, False, exc, False)
         elif isinstance(g, Opq) and g.k and g.k[0] == 'and' and polarity is True:
@@ -754,6 +760,7 @@ class Evaluator:
             if r is None: r = Opq('in', a, b)
             return r if isinstance(op, ast.In) else s.negate(r)
         if isinstance(op, (ast.Is, ast.IsNot)):
+            if b is None and isinstance(a, Opq) and a.k and a.k[0] == 'exc': return isinstance(op, ast.IsNot)
             if b is None and not isinstance(a, (Opq,)) and not (isinstance(a, Poly) and not a.is_const()):
                 return (a is None) == isinstance(op, ast.Is)
             sa, sb = _sentinel(a), _sentinel(b)
@@ -956,14 +963,26 @@ class Evaluator:
             # concrete list/tuple of known length with a single generator: expand
             if len(e.generators) == 1 and isinstance(it, (list, tuple)) and len(it) <= 24:
                 out = []
+                guarded = []          # (guard, element) per item when some filter is not decided: the items that MAY be present, in order
                 for item in it:
                     env3 = {'__parent__': env}
                     s.assign(g.target, item, env3, mod, depth)
                     fl = [s.truth(s.ev(c, env3, mod, depth)) for c in g.ifs]
                     if any(f is False for f in fl): continue
-                    if any(f is not True for f in fl): out = None; break
+                    if any(f is not True for f in fl):
+                        if kind in ('list', 'gen') and len(it) <= 8:
+                            gd_ = s.mkbool('and', [f for f in fl if f is not True])
+                            if out is not None: guarded += [(True, x_) for x_ in out]; out = None
+                            guarded.append((gd_, s.ev(e.elt, env3, mod, depth)))
+                            continue
+                        out = None; guarded = []; break
+                    if out is None:
+                        if guarded: guarded.append((True, s.ev(e.elt, env3, mod, depth))); continue
+                        break
                     if kind == 'dict': out.append((s.ev(e.key, env3, mod, depth), s.ev(e.value, env3, mod, depth)))
                     else: out.append(s.ev(e.elt, env3, mod, depth))
+                if out is None and guarded:
+                    return Opq('guarded', *[(g_, v_) for g_, v_ in guarded])
                 if out is not None:
                     if kind == 'dict':
                         if all(isinstance(k, (str, int, bool)) or k is None for k, _ in out): return {k: v for k, v in out}
@@ -1340,6 +1359,8 @@ class Evaluator:
             return s.apply(s.getattr(recv, attr, mod, depth), args, kw, mod, depth, node)
         if isinstance(recv, Ref) and recv.kind == 'npfun' and attr == 'reduce' and len(args) == 1 and recv.name in ('add', 'multiply'):
             if recv.name == 'add': return s.npcall('sum', args, {k_: v_ for k_, v_ in kw.items()})         # np.add.reduce(x) is np.sum(x)
+        if attr == '__getitem__' and len(args) == 1 and not kw: return s.getitem(recv, args[0])                   # the method spelling of x[k]
+        if attr == '__contains__' and len(args) == 1 and not kw: return s.compare(ast.In(), args[0], recv)
         if attr == 'conjugate' and not args: return s.npcall('conj', [recv], {})
         if (s.self_class is not None and isinstance(recv, Poly) and recv.as_atom() == s.self_atom and ((attr.startswith('_') and not attr.startswith('__')) or attr in s.inline_self_methods)
                 and depth < s.depth_limit):
@@ -1537,6 +1558,8 @@ class Evaluator:
     def builtin(s, name, args, kw, mod, depth):
         a = args[0] if args else None
         if name == 'frozenset': name = 'set'          # the same value as far as membership and equality go
+        if name.endswith(('Error', 'Exception', 'Warning')) or name in ('StopIteration', 'KeyboardInterrupt', 'SystemExit'):
+            return Opq('exc', name, *args)              # an exception object (never None, never false)
         if name == 'str' and len(args) == 1 and (isinstance(a, (Rec, str, Cond)) or (isinstance(a, Opq) and a.k and a.k[0] in ('strcat', 'fmt'))):
             return s.to_str(a, '', -1, mod, depth)
         if name in ('float', 'str', 'int') and len(args) == 1:
@@ -1651,6 +1674,11 @@ class Evaluator:
                     return Comp((el_, idx_) if i_ == 0 else (idx_, el_), [(en_, [])], 'list')
         if name == 'dict' and len(args) == 1 and not kw and isinstance(a, Comp) and a.kind in ('list', 'gen') and isinstance(a.elt, (tuple, list)) and len(a.elt) == 2:
             return Comp(tuple(a.elt), a.gens, 'dict')
+        if name == 'next' and len(args) == 2 and not kw and isinstance(a, Opq) and a.k and a.k[0] == 'guarded':
+            # the first item whose filter holds, else the default
+            out_ = args[1]
+            for g_, v_ in reversed(a.k[1:]): out_ = v_ if g_ is True else s.mkcond(g_, v_, out_)
+            return out_
         if name == 'next' and 1 <= len(args) <= 2 and not kw and isinstance(a, (list, tuple)):
             # the first item of a concrete sequence (a generator over concrete items that was unrolled)
             if a: return a[0]
@@ -1991,6 +2019,7 @@ class Evaluator:
             elif isinstance(st, ast.Match):
                 chain = _match_as_ifs(st)
                 if chain is not None: return s.block(chain + rest, env, mod, depth)
+                return Opq('?', 'match statement with patterns that are not modelled')        # never skipped: what follows is not known
             elif isinstance(st, ast.Try):
                 # the body runs with the analysed program's handlers armed: a decidable exception raised before the marker statement is
                 # dispatched to the first matching handler; anything raised after the marker belongs to the code that FOLLOWS the try
@@ -2664,6 +2693,17 @@ def _match_as_ifs(st):
         if isinstance(pat, ast.MatchSequence) and all(isinstance(p_, ast.MatchValue) for p_ in pat.patterns):
             return ast.Compare(left=ast.Call(func=ast.Name(id='list', ctx=ast.Load()), args=[st.subject], keywords=[]), ops=[ast.Eq()],
                                comparators=[ast.List(elts=[p_.value for p_ in pat.patterns], ctx=ast.Load())])
+        if isinstance(pat, ast.MatchSequence) and isinstance(st.subject, ast.Tuple) and len(st.subject.elts) == len(pat.patterns) \
+                and not any(isinstance(p_, ast.MatchStar) for p_ in pat.patterns):
+            # match a, b, c: case x, _, 0 [if guard]: element-wise on a subject written as a tuple display (its length is known)
+            conds = []
+            for sub_, p_ in zip(st.subject.elts, pat.patterns):
+                if isinstance(p_, ast.MatchValue): conds.append(ast.Compare(left=sub_, ops=[ast.Eq()], comparators=[p_.value]))
+                elif isinstance(p_, ast.MatchSingleton): conds.append(ast.Compare(left=sub_, ops=[ast.Is()], comparators=[ast.Constant(value=p_.value)]))
+                elif isinstance(p_, ast.MatchAs) and p_.pattern is None:
+                    if p_.name is not None: case_binds.setdefault(id(pat), {})[p_.name] = sub_
+                else: return None
+            return ast.BoolOp(op=ast.And(), values=conds) if len(conds) > 1 else (conds[0] if conds else ast.Constant(value=True))
         if isinstance(pat, ast.MatchOr):
             ts = [test(p_) for p_ in pat.patterns]
             return None if any(t is None for t in ts) else ast.BoolOp(op=ast.Or(), values=ts)
@@ -2697,7 +2737,7 @@ def _match_as_ifs(st):
             if t_ is not None: captures.append(pat.name)
             return t_
         return None
-    captures = []; body_binds = {}
+    captures = []; body_binds = {}; case_binds = {}
     out = None; cur = None
     pre = []
     for case in st.cases:
@@ -2707,7 +2747,16 @@ def _match_as_ifs(st):
             cur.orelse = list(case.body); cur = None; break
         t = test(case.pattern)
         if t is None: return None
-        if case.guard is not None: t = case.guard if (isinstance(t, ast.Constant) and t.value is True) else ast.BoolOp(op=ast.And(), values=[t, case.guard])
+        cb_ = case_binds.get(id(case.pattern), {})
+        guard_ = case.guard
+        if guard_ is not None and cb_:
+            class _Sub(ast.NodeTransformer):
+                def visit_Name(self, n):
+                    return cb_[n.id] if isinstance(n.ctx, ast.Load) and n.id in cb_ else n
+            import copy as _copy
+            guard_ = _Sub().visit(_copy.deepcopy(guard_))
+        if cb_: body_binds[id(case.pattern)] = body_binds.get(id(case.pattern), []) + [ast.Assign(targets=[ast.Name(id=n_, ctx=ast.Store())], value=v_) for n_, v_ in cb_.items()]
+        if guard_ is not None: t = guard_ if (isinstance(t, ast.Constant) and t.value is True) else ast.BoolOp(op=ast.And(), values=[t, guard_])
         node = ast.If(test=t, body=[ast.copy_location(b_, case.body[0]) for b_ in body_binds.get(id(case.pattern), [])] + list(case.body), orelse=[])
         ast.copy_location(node, case.body[0]); ast.fix_missing_locations(node)
         if out is None: out = node
